@@ -65,9 +65,15 @@ func (c Case) keyStrings() []string {
 	return vk.Strings(c.Keys)
 }
 
+var scratch vk.Scratch
+
 func check(c Case) *vk.Failure {
 	keys := c.keyStrings()
 	orig := c.keyStrings()
+	reused := c.BigN == 0 && scratch.Reuse(vk.SumStrings(orig)+uint64(c.MaxSize))
+	if reused {
+		keys = scratch.Strings(orig) // every other case: the same backing array as earlier calls, other keys
+	}
 	n := len(keys)
 	var L, B []int32
 	if f := vk.TryF(func() string {
@@ -120,6 +126,11 @@ func check(c Case) *vk.Failure {
 	for i := range keys {
 		if keys[i] != orig[i] {
 			return vk.Failf("mutates", "key %d changed", i)
+		}
+	}
+	if reused {
+		if msg := scratch.Check(); msg != "" {
+			return vk.Failf("argument-spare-capacity-written", "%s", msg)
 		}
 	}
 	return nil
@@ -240,6 +251,29 @@ func TestGrid(t *testing.T) {
 		}
 		for ms := int32(1); ms <= 7; ms++ {
 			checker.Run(t, Case{Keys: vk.HexStrings(keys), MaxSize: ms, Class: "grid"})
+		}
+	}
+	// maximum fan-out: a key that is the common prefix of its successors followed by all 256 next
+	// bytes (257 sub-ranges in one split), alone and nested under other keys
+	for _, pre := range []string{"", "c", "t/"} {
+		var keys []string
+		if pre != "" {
+			keys = append(keys, "a", "b\x00")
+		}
+		keys = append(keys, pre)
+		for b := 0; b < 256; b++ {
+			k := pre + string([]byte{byte(b)})
+			keys = append(keys, k)
+			if b%64 == 7 {
+				keys = append(keys, k+"x", k+"y")
+			}
+		}
+		if pre != "" {
+			keys = append(keys, "zz")
+		}
+		sort.Strings(keys)
+		for _, ms := range []int32{1, 2, 100, 255, 256, 257, 300} {
+			checker.Run(t, Case{Keys: vk.HexStrings(keys), MaxSize: ms, Class: "grid-full-fan-out"})
 		}
 	}
 	for _, n := range []int{1<<18 + 7, 70001} { // very large key sets (size thresholds)
